@@ -416,8 +416,12 @@ def mime_table_obligations(ctx, rep, rule):
 def check(ctx, rep):
     prog = ctx.prog
     eff = Effects(prog, ctx.resolver)
+    rep.rule("R04g", "= R05g: each URL-based protocol maps a request target to the selector it names, whatever reserved characters the name contains", floor=3)
     rep.rule("R04f", "MIME tables are the configured ones: encodings table emptied then filled from `encoding`, type files from `mimetypes`, run at start-up", floor=2)
     mime_table_obligations(ctx, rep, "R04f")
+    from .c05 import request_target_evaluation
+
+    request_target_evaluation(ctx, rep, "R04g")
     rep.rule("R04a", "copy loop: 'rb' open in a with; each chunk written once unchanged; loop ends only on an empty read", floor=1)
     rep.rule("R04b", "Gopher+ length: transforming handlers leave size unset; generated menus use the unknown-length marker", floor=5)
     rep.rule("R04c", "HTTP HEAD: no body-producing call reachable; header writes independent of the method", floor=1)
@@ -498,7 +502,9 @@ def check(ctx, rep):
                 continue
 
             def writes(method):
-                w = Walker(prog, ctx.resolver, assumptions={"self.requestparts[0]": Const(method)}, sticky={"self.requestparts[0]"})
+                w = Walker(prog, ctx.resolver, assumptions={"self.requestparts[0]": Const(method)}, sticky={"self.requestparts[0]"},
+                           inline=lambda fn, t, d: d < 3 and t.bound_cls is not None and fn.module is fnf.module
+                           and fn.name not in ("writedir", "gethandler", "log", "renderobjinfo"))
                 out = []
                 for p in w.run(fnf, P):
                     hdr, body = [], []
@@ -600,38 +606,44 @@ def check(ctx, rep):
         rep.add("R04d", f"entry.{fld} provenance", not bad, "pygopherd/gopherentry.py",
                 f"the entry's {fld} can hold {sorted(bad)} data (it is advertised to clients as the content type)" if bad else f"{sorted(v)}",
                 key=f"R04d|field|{fld}")
+    advertised_type_obligations(ctx, rep, "R04d")
+
+
+
+def advertised_type_obligations(ctx, rep, rule="R04d"):
+    """On every path of each protocol's handle() the advertised type is adjust(self.entry.getmimetype())."""
+    prog = ctx.prog
     for P in ctx.protocol_classes():
         h = prog.resolve_method(P, "handle")
         if h is None or h.cls is not P:
             continue
-        from ..structure import bind_params, helper_calls
+        from ..facts import expand_ast as _xa2
 
-        def _adj_in(fn):
-            return [n for n in ast.walk(fn.node) if isinstance(n, ast.Call) and isinstance(n.func, ast.Attribute)
-                    and n.func.attr in ("adjustmimetype", "adjust_mimetype")]
-
-        sites = [(a, h, {}) for a in _adj_in(h)]
-        for g, cn, caller, bind in helper_calls(prog, ctx.resolver, h, P, skip=("adjustmimetype", "adjust_mimetype")):
-            if caller is h:
-                sites.extend((a, g, bind) for a in _adj_in(g))
-        if not sites:
-            continue
+        # every path of handle() (helpers of the protocol's own module walked with it): what is handed to the adjust function
+        wk = Walker(prog, ctx.resolver, merge_loops=True,
+                    inline=lambda fn, t, d: d < 3 and t.bound_cls is not None and fn.module is h.module
+                    and fn.name not in ("adjustmimetype", "adjust_mimetype", "writedir", "gethandler", "filenotfound", "log", "renderobjinfo", "headerslurp", "write_status"))
         problems = []
-        for a, fn, bind in sites:
-            if dotted(a.func.value) != "self":
-                problems.append("the MIME type is adjusted by another object's function")
-            if not (a.args and isinstance(a.args[0], (ast.Call, ast.Name))):
-                problems.append("adjust function is not applied to the entry's type")
-            src = a.args[0] if a.args else None
-            if isinstance(src, ast.Name):
-                for n in ast.walk(fn.node):
-                    if isinstance(n, ast.Assign) and any(isinstance(t, ast.Name) and t.id == src.id for t in n.targets) and n.value is not a:
-                        src = n.value
-                        break
-            src = bind_params(src, bind) if src is not None else None
-            if not (isinstance(src, ast.Call) and isinstance(src.func, ast.Attribute) and src.func.attr == "getmimetype"
-                    and norm(src.func.value) == "self.entry"):
-                problems.append(f"the advertised type is derived from `{norm(src)[:40]}`, not from self.entry.getmimetype()")
+        n_adj = 0
+        seen_src = set()
+        for pth in wk.run(h, P):
+            for e in pth.events:
+                if e.kind == "call" and isinstance(e.node.func, ast.Attribute) and e.node.func.attr in ("adjustmimetype", "adjust_mimetype"):
+                    n_adj += 1
+                    a = e.node
+                    fn = e.frame[0] if e.frame and e.frame[0] is not None else h
+                    if dotted(a.func.value) != "self":
+                        problems.append("the MIME type is adjusted by another object's function")
+                    src = _xa2(a.args[0], fn, e.defs) if (a.args and e.defs) else (a.args[0] if a.args else None)
+                    txt = norm(src) if src is not None else "?"
+                    if txt in seen_src:
+                        continue
+                    seen_src.add(txt)
+                    if txt != "self.entry.getmimetype()":
+                        problems.append(f"on some path the advertised type is derived from `{txt[:50]}`, not from self.entry.getmimetype() "
+                                        "(the other protocols advertise the entry's own type for the same selector)")
+        if not n_adj:
+            continue
         # the adjusted value is what gets advertised
-        rep.add("R04d", f"{h.qualname}: advertised type = adjust(entry.getmimetype())", not problems, ctx.where(h), "; ".join(sorted(set(problems))),
-                key=f"R04d|{h.qualname}")
+        rep.add(rule, f"{h.qualname}: advertised type = adjust(entry.getmimetype())", not problems, ctx.where(h), "; ".join(sorted(set(problems))),
+                key=f"{rule}|{h.qualname}")
